@@ -196,59 +196,64 @@ Record conn := {
   c_cause : option cause;                (* ghost: which site produced the connection error *)
   c_ctl0 : option fstream;               (* ghost: the control FrameStream (with its queue) when it was claimed *)
   c_trace : list action;                 (* ghost: since then, the arrivals on that stream and the poll_next calls *)
-  c_sent : bool                          (* the server's sent_closing.is_some() *)
+  c_sent : bool;                         (* the server's sent_closing.is_some() *)
+  c_seen : list (N * option N)           (* ghost: streams that left pending_recv_streams: resolved with that type / dropped *)
 }.
 
 Definition new_conn (grease : bool) : conn :=
   {| c_pending := []; c_control := None; c_enc := false; c_dec := false; c_wt := 0; c_got := false; c_err := None;
      c_gflag := grease; c_gstep := GNotStarted; c_gid := 0; c_settings := None; c_closing := false;
-     c_recv_closing := None; c_acted := []; c_taken := []; c_handed := []; c_cause := None; c_ctl0 := None; c_trace := []; c_sent := false |}.
+     c_recv_closing := None; c_acted := []; c_taken := []; c_handed := []; c_cause := None; c_ctl0 := None; c_trace := []; c_sent := false; c_seen := [] |}.
 
 Definition set_pending (c : conn) (p : list (N * arecv)) : conn :=
   {| c_pending := p; c_control := c_control c; c_enc := c_enc c; c_dec := c_dec c; c_wt := c_wt c; c_got := c_got c;
      c_err := c_err c; c_gflag := c_gflag c; c_gstep := c_gstep c; c_gid := c_gid c; c_settings := c_settings c;
-     c_closing := c_closing c; c_recv_closing := c_recv_closing c; c_acted := c_acted c; c_taken := c_taken c; c_handed := c_handed c; c_cause := c_cause c; c_ctl0 := c_ctl0 c; c_trace := c_trace c; c_sent := c_sent c |}.
+     c_closing := c_closing c; c_recv_closing := c_recv_closing c; c_acted := c_acted c; c_taken := c_taken c; c_handed := c_handed c; c_cause := c_cause c; c_ctl0 := c_ctl0 c; c_trace := c_trace c; c_sent := c_sent c; c_seen := c_seen c |}.
 Definition set_slots (c : conn) (ctl : option (N * fstream)) (e d : bool) (wt : N) : conn :=
   {| c_pending := c_pending c; c_control := ctl; c_enc := e; c_dec := d; c_wt := wt; c_got := c_got c;
      c_err := c_err c; c_gflag := c_gflag c; c_gstep := c_gstep c; c_gid := c_gid c; c_settings := c_settings c;
-     c_closing := c_closing c; c_recv_closing := c_recv_closing c; c_acted := c_acted c; c_taken := c_taken c; c_handed := c_handed c; c_cause := c_cause c; c_ctl0 := c_ctl0 c; c_trace := c_trace c; c_sent := c_sent c |}.
+     c_closing := c_closing c; c_recv_closing := c_recv_closing c; c_acted := c_acted c; c_taken := c_taken c; c_handed := c_handed c; c_cause := c_cause c; c_ctl0 := c_ctl0 c; c_trace := c_trace c; c_sent := c_sent c; c_seen := c_seen c |}.
 Definition set_control (c : conn) (ctl : option (N * fstream)) : conn := set_slots c ctl (c_enc c) (c_dec c) (c_wt c).
 Definition set_err (c : conn) (e : option N) (z : cause) : conn :=
   {| c_pending := c_pending c; c_control := c_control c; c_enc := c_enc c; c_dec := c_dec c; c_wt := c_wt c; c_got := c_got c;
      c_err := e; c_gflag := c_gflag c; c_gstep := c_gstep c; c_gid := c_gid c; c_settings := c_settings c;
-     c_closing := c_closing c; c_recv_closing := c_recv_closing c; c_acted := c_acted c; c_taken := c_taken c; c_handed := c_handed c; c_cause := Some z; c_ctl0 := c_ctl0 c; c_trace := c_trace c; c_sent := c_sent c |}.
+     c_closing := c_closing c; c_recv_closing := c_recv_closing c; c_acted := c_acted c; c_taken := c_taken c; c_handed := c_handed c; c_cause := Some z; c_ctl0 := c_ctl0 c; c_trace := c_trace c; c_sent := c_sent c; c_seen := c_seen c |}.
 Definition log_taken (c : conn) (f : frame) : conn :=
   {| c_pending := c_pending c; c_control := c_control c; c_enc := c_enc c; c_dec := c_dec c; c_wt := c_wt c; c_got := c_got c;
      c_err := c_err c; c_gflag := c_gflag c; c_gstep := c_gstep c; c_gid := c_gid c; c_settings := c_settings c;
-     c_closing := c_closing c; c_recv_closing := c_recv_closing c; c_acted := c_acted c; c_taken := c_taken c ++ [f]; c_handed := c_handed c; c_cause := c_cause c; c_ctl0 := c_ctl0 c; c_trace := c_trace c; c_sent := c_sent c |}.
+     c_closing := c_closing c; c_recv_closing := c_recv_closing c; c_acted := c_acted c; c_taken := c_taken c ++ [f]; c_handed := c_handed c; c_cause := c_cause c; c_ctl0 := c_ctl0 c; c_trace := c_trace c; c_sent := c_sent c; c_seen := c_seen c |}.
 Definition set_ghost (c : conn) (s0 : option fstream) (t : list action) : conn :=
   {| c_pending := c_pending c; c_control := c_control c; c_enc := c_enc c; c_dec := c_dec c; c_wt := c_wt c; c_got := c_got c;
      c_err := c_err c; c_gflag := c_gflag c; c_gstep := c_gstep c; c_gid := c_gid c; c_settings := c_settings c;
-     c_closing := c_closing c; c_recv_closing := c_recv_closing c; c_acted := c_acted c; c_taken := c_taken c; c_handed := c_handed c; c_cause := c_cause c; c_ctl0 := s0; c_trace := t; c_sent := c_sent c |}.
+     c_closing := c_closing c; c_recv_closing := c_recv_closing c; c_acted := c_acted c; c_taken := c_taken c; c_handed := c_handed c; c_cause := c_cause c; c_ctl0 := s0; c_trace := t; c_sent := c_sent c; c_seen := c_seen c |}.
+Definition log_seen (c : conn) (id : N) (ty : option N) : conn :=
+  {| c_pending := c_pending c; c_control := c_control c; c_enc := c_enc c; c_dec := c_dec c; c_wt := c_wt c; c_got := c_got c;
+     c_err := c_err c; c_gflag := c_gflag c; c_gstep := c_gstep c; c_gid := c_gid c; c_settings := c_settings c;
+     c_closing := c_closing c; c_recv_closing := c_recv_closing c; c_acted := c_acted c; c_taken := c_taken c; c_handed := c_handed c; c_cause := c_cause c; c_ctl0 := c_ctl0 c; c_trace := c_trace c; c_sent := c_sent c; c_seen := c_seen c ++ [(id, ty)] |}.
 Definition set_sent (c : conn) : conn :=
   {| c_pending := c_pending c; c_control := c_control c; c_enc := c_enc c; c_dec := c_dec c; c_wt := c_wt c; c_got := c_got c;
      c_err := c_err c; c_gflag := c_gflag c; c_gstep := c_gstep c; c_gid := c_gid c; c_settings := c_settings c;
-     c_closing := c_closing c; c_recv_closing := c_recv_closing c; c_acted := c_acted c; c_taken := c_taken c; c_handed := c_handed c; c_cause := c_cause c; c_ctl0 := c_ctl0 c; c_trace := c_trace c; c_sent := true |}.
+     c_closing := c_closing c; c_recv_closing := c_recv_closing c; c_acted := c_acted c; c_taken := c_taken c; c_handed := c_handed c; c_cause := c_cause c; c_ctl0 := c_ctl0 c; c_trace := c_trace c; c_sent := true; c_seen := c_seen c |}.
 Definition log_handed (c : conn) (f : frame) : conn :=
   {| c_pending := c_pending c; c_control := c_control c; c_enc := c_enc c; c_dec := c_dec c; c_wt := c_wt c; c_got := c_got c;
      c_err := c_err c; c_gflag := c_gflag c; c_gstep := c_gstep c; c_gid := c_gid c; c_settings := c_settings c;
-     c_closing := c_closing c; c_recv_closing := c_recv_closing c; c_acted := c_acted c; c_taken := c_taken c; c_handed := c_handed c ++ [f]; c_cause := c_cause c; c_ctl0 := c_ctl0 c; c_trace := c_trace c; c_sent := c_sent c |}.
+     c_closing := c_closing c; c_recv_closing := c_recv_closing c; c_acted := c_acted c; c_taken := c_taken c; c_handed := c_handed c ++ [f]; c_cause := c_cause c; c_ctl0 := c_ctl0 c; c_trace := c_trace c; c_sent := c_sent c; c_seen := c_seen c |}.
 Definition set_grease (c : conn) (f : bool) (s : gstep) (id : N) : conn :=
   {| c_pending := c_pending c; c_control := c_control c; c_enc := c_enc c; c_dec := c_dec c; c_wt := c_wt c; c_got := c_got c;
      c_err := c_err c; c_gflag := f; c_gstep := s; c_gid := id; c_settings := c_settings c;
-     c_closing := c_closing c; c_recv_closing := c_recv_closing c; c_acted := c_acted c; c_taken := c_taken c; c_handed := c_handed c; c_cause := c_cause c; c_ctl0 := c_ctl0 c; c_trace := c_trace c; c_sent := c_sent c |}.
+     c_closing := c_closing c; c_recv_closing := c_recv_closing c; c_acted := c_acted c; c_taken := c_taken c; c_handed := c_handed c; c_cause := c_cause c; c_ctl0 := c_ctl0 c; c_trace := c_trace c; c_sent := c_sent c; c_seen := c_seen c |}.
 Definition set_got_settings (c : conn) (s : option Settings.applied) : conn :=
   {| c_pending := c_pending c; c_control := c_control c; c_enc := c_enc c; c_dec := c_dec c; c_wt := c_wt c; c_got := true;
      c_err := c_err c; c_gflag := c_gflag c; c_gstep := c_gstep c; c_gid := c_gid c; c_settings := s;
-     c_closing := c_closing c; c_recv_closing := c_recv_closing c; c_acted := c_acted c; c_taken := c_taken c; c_handed := c_handed c; c_cause := c_cause c; c_ctl0 := c_ctl0 c; c_trace := c_trace c; c_sent := c_sent c |}.
+     c_closing := c_closing c; c_recv_closing := c_recv_closing c; c_acted := c_acted c; c_taken := c_taken c; c_handed := c_handed c; c_cause := c_cause c; c_ctl0 := c_ctl0 c; c_trace := c_trace c; c_sent := c_sent c; c_seen := c_seen c |}.
 Definition set_closing (c : conn) (rc : option N) : conn :=
   {| c_pending := c_pending c; c_control := c_control c; c_enc := c_enc c; c_dec := c_dec c; c_wt := c_wt c; c_got := c_got c;
      c_err := c_err c; c_gflag := c_gflag c; c_gstep := c_gstep c; c_gid := c_gid c; c_settings := c_settings c;
-     c_closing := true; c_recv_closing := rc; c_acted := c_acted c; c_taken := c_taken c; c_handed := c_handed c; c_cause := c_cause c; c_ctl0 := c_ctl0 c; c_trace := c_trace c; c_sent := c_sent c |}.
+     c_closing := true; c_recv_closing := rc; c_acted := c_acted c; c_taken := c_taken c; c_handed := c_handed c; c_cause := c_cause c; c_ctl0 := c_ctl0 c; c_trace := c_trace c; c_sent := c_sent c; c_seen := c_seen c |}.
 Definition log_act (c : conn) (a : act) : conn :=
   {| c_pending := c_pending c; c_control := c_control c; c_enc := c_enc c; c_dec := c_dec c; c_wt := c_wt c; c_got := c_got c;
      c_err := c_err c; c_gflag := c_gflag c; c_gstep := c_gstep c; c_gid := c_gid c; c_settings := c_settings c;
-     c_closing := c_closing c; c_recv_closing := c_recv_closing c; c_acted := c_acted c ++ [a]; c_taken := c_taken c; c_handed := c_handed c; c_cause := c_cause c; c_ctl0 := c_ctl0 c; c_trace := c_trace c; c_sent := c_sent c |}.
+     c_closing := c_closing c; c_recv_closing := c_recv_closing c; c_acted := c_acted c ++ [a]; c_taken := c_taken c; c_handed := c_handed c; c_cause := c_cause c; c_ctl0 := c_ctl0 c; c_trace := c_trace c; c_sent := c_sent c; c_seen := c_seen c |}.
 
 (* results of the poll functions of this file *)
 Inductive pres (A : Type) :=
@@ -278,12 +283,13 @@ Fixpoint par_iter (wt : bool) (todo kept : list (N * arecv)) (s : cst) : pres un
   | (id, a) :: rest =>
       match poll_type a (rxq w id) with
       | (Pending, a', q') => par_iter wt rest (kept ++ [(id, a')]) (c, set_rxq w id q', wr)
-      | (Ready (Err PEnd), _, q') => par_iter wt rest kept (c, set_rxq w id q', wr)
+      | (Ready (Err PEnd), _, q') => par_iter wt rest kept (log_seen c id None, set_rxq w id q', wr)
       | (Ready (Err (PInternal code)), _, q') => fail CzHeaderInternal code (set_pending c (kept ++ rest), set_rxq w id q', wr)
       | (Ready (Err (PIncoming _)), _, q') => (POutside, (c, set_rxq w id q', wr))
       | (Ready (Panic n), _, q') => (PPanic n, (c, set_rxq w id q', wr))
       | (Ready (Ok _), a', q') =>
           let w1 := set_rxq w id q' in
+          let c := log_seen c id (ar_ty a') in
           let c0 := set_pending c (kept ++ rest) in
           match into_stream_kind a' with
           | Ok UControl =>
